@@ -196,12 +196,14 @@ func runC09burst(c *Ctx) {
 			return out
 		}
 		fill := make([]int, 0, limit)
-		for k := 1; k <= limit; k++ { // keys 1..nCold stay cold
+		// the warm keys are stored FIRST and the keys that will stay cold last: only the burst makes the
+		// warm keys more recent than the cold ones, so an access that is lost leaves its key the oldest
+		for k := 1; k <= limit; k++ {
 			cc.Put(k, cv{k, 1})
 			fill = append(fill, k)
 		}
 		h.Emit(Ev{"op": "new", "limit": limit, "fill": fill, "len": cc.Len(), "size": int(cc.Size()), "evs": take(), "procs": procs[i%len(procs)], "readers": readers})
-		warm := fill[nCold:]
+		warm := fill[:nWarm]
 		var miss atomic.Int64
 		var wg sync.WaitGroup
 		start := make(chan struct{})
@@ -216,7 +218,13 @@ func runC09burst(c *Ctx) {
 				}()
 				<-start
 				for j := range warm {
+					if i%2 == 0 && j%readers != g {
+						continue // even histories: every warm key is read by exactly one reader
+					}
 					k := warm[(j+g*len(warm)/readers)%len(warm)]
+					if i%2 == 0 {
+						k = warm[j]
+					}
 					if v, ok := cc.Get(k); !ok || v.Tag != k || v.Size != 1 {
 						miss.Add(1)
 					}
@@ -238,9 +246,83 @@ func runC09burst(c *Ctx) {
 	}
 }
 
+// runC09duel: Get(k) against one concurrent writer on the same entry, then the quiescent state
+// (DuelTrace.tla).  One record per duel.
+func runC09duel(c *Ctx) {
+	procs := []int{2, 4, 8, 16}
+	nh := c.Pick(60000, 600000)
+	racers := []string{"remove", "put", "clear", "evict"}
+	for i := 0; i < nh; i++ {
+		if i%4096 == 0 {
+			runtime.GOMAXPROCS(procs[(i/4096)%len(procs)])
+		}
+		racer := racers[i%4]
+		k, k2 := 1+i%3, 7
+		v0, v1 := 10+i%5, 20+i%7
+		var evs []int
+		var mu sync.Mutex
+		limit := 4
+		if racer == "evict" {
+			limit = 1
+		}
+		cc := cache.New(int64(limit), cache.LRU[int, cv]().OnEvict(func(_ int, v cv) {
+			mu.Lock()
+			evs = append(evs, v.Tag)
+			mu.Unlock()
+		}))
+		cc.Put(k, cv{v0, 1})
+		ev := Ev{"op": "new", "racer": racer, "v0": v0, "v1": v1, "get": [3]int{-1, -1, -1}, "rres": -1,
+			"get2": [3]int{-1, -1, -1}, "has2": false, "len2": -1, "size2": -1, "evs": []int{}}
+		guard(ev, func() {
+			var wg sync.WaitGroup
+			var get [3]int
+			rres := -1
+			start := make(chan struct{})
+			wg.Add(2)
+			go func() {
+				defer wg.Done()
+				<-start
+				v, ok := cc.Get(k)
+				get = [3]int{v.Tag, v.Size, b2i(ok)}
+			}()
+			go func() {
+				defer wg.Done()
+				<-start
+				for s := 0; s < (i/4)%3*7; s++ { // a few different head starts
+					_ = s * s
+				}
+				switch racer {
+				case "remove":
+					rres = b2i(cc.Remove(k))
+				case "put":
+					rres = b2i(cc.Put(k, cv{v1, 1}))
+				case "clear":
+					cc.Clear()
+				case "evict":
+					rres = b2i(cc.Put(k2, cv{v1, 1}))
+				}
+			}()
+			close(start)
+			wg.Wait()
+			v, ok := cc.Get(k)
+			ev["get"], ev["rres"] = get, rres
+			ev["get2"] = [3]int{v.Tag, v.Size, b2i(ok)}
+			ev["has2"] = cc.Has(k)
+			ev["len2"], ev["size2"] = cc.Len(), int(cc.Size())
+			mu.Lock()
+			ev["evs"] = ints(evs)
+			mu.Unlock()
+		})
+		c.NewHist("duel").Emit(ev)
+	}
+}
+
 func runC09(c *Ctx) {
 	if k, _ := c.Extra["kind"].(string); k == "burst" {
 		runC09burst(c)
+		return
+	} else if k == "duel" {
+		runC09duel(c)
 		return
 	}
 	nh := c.Pick(640, 24000)
